@@ -65,6 +65,9 @@ func (rv *respValue) serializeBlobErrorString(sb *strings.Builder, data respBlob
 }
 
 func (rv *respValue) serializeSimpleString(sb *strings.Builder, data string) {
+	// a simple string or error is one line: line breaks in it (e.g. client input quoted in an
+	// error message) would end the reply early and desynchronise the client
+	data = strings.NewReplacer("\r", " ", "\n", " ").Replace(data)
 	sb.WriteString(fmt.Sprintf("%s\r\n", data))
 }
 
